@@ -23,6 +23,14 @@ CHECKS = {
          "Range checks (widths 1..bitlen+2, mixes that move the limb width, commit and bit-decomposition paths) and logderivlookup tables (all index patterns, zero queries) are compared with the integer predicate / table[index] on both builders, the test engine and 7 curves; a hint adversary forges limbs and multiplicities (incl. a two-pass attack that learns the commitment) and must never get an out-of-range value accepted; the shared commitment must contain every gadget's data.",
          "Lookup results (outputs of a solver instruction, not a hint) are not forged; log-derivative soundness error 1/p ignored (curve fields only for the adversary).",
          "DESIGN.md §3 C13"),
+ "C03": ("property-based differential testing vs reference interpreter over the configuration product (rapid)",
+         "Random provable programs biased to edge shapes x 7 curves x {Groth16, PLONK} x consistent hash / statistical-ZK / solver-task options; the reference interpreter classifies the assignment: satisfying => Setup, Prove and Verify (two forms of the public witness) all succeed and a verifier with a different hash option rejects; non-satisfying => Prove returns an error within a bound, without panic.",
+         "Interleavings of the internally concurrent provers are sampled (whatever the scheduler does in N runs), not enumerated; a hang is only declared after 120 s for work that takes milliseconds.",
+         "DESIGN.md §3 C03"),
+ "C06": ("validity predicate on every solver output + independent replay solver (rapid)",
+         "Every Solve of generated programs and of wide level-parallel circuits (lookup tables, range checks, hints, specialised gates; both builders; task counts 1..512; systems restored from bytes) is re-evaluated independently: every exported row / gate / copy class on the returned solution, identical solutions across task counts, a Levels partition/dependency oracle derived from sequential semantics, and a harness-written sequential solver that must agree with Solve's verdict in both directions.",
+         "Worker interleavings are sampled, not enumerated; systems whose hints draw randomness (commitments) are only checked by the validity predicate; the replay solver answers 'undetermined' (counted) when a row has more than one unknown.",
+         "DESIGN.md §3 C06"),
 }
 
 PENDING = {}
